@@ -269,6 +269,18 @@ pub fn escape_pair_names() -> Vec<String> {
         }
     }
     // longer witnesses of the same classes
+    // one character of every class a printer may treat on its own (printed raw, as `\u{..}`, or as two bytes by a
+    // reader): C0 and C1 controls, DEL, no-break space, soft hyphen, the last Latin-1 letter, a combining mark, zero
+    // width and bidi controls, line / paragraph separator, an unassigned code point, the scalars around the surrogate
+    // block, private use, BOM, non-characters, a 4-byte character and the last scalar; alone and followed by a digit
+    for c in [
+        '\u{1}', '\u{1f}', '\u{80}', '\u{85}', '\u{9f}', '\u{a0}', '\u{ad}', '\u{ff}', '\u{100}', '\u{301}', '\u{378}', '\u{200b}', '\u{200e}', '\u{2028}',
+        '\u{2029}', '\u{d7ff}', '\u{e000}', '\u{feff}', '\u{fffe}', '\u{ffff}', '\u{1f600}', '\u{e0001}', '\u{10ffff}',
+    ] {
+        v.push(c.to_string());
+        v.push(format!("{c}0"));
+        v.push(format!("a{c}"));
+    }
     for s in ["a\\0b", "path\\01", "C:\\dir\\", "get\\", "\\u{0}", "\\x00", "\\\\", "a\\\"b", "\\'", "x\u{0}0", "\u{0}\u{0}"] {
         v.push(s.to_string());
     }
